@@ -101,10 +101,14 @@ func buildRequest(lc labCfg, ec *exchangeCase, caseID string) *lab.RawRequest {
 		req.Header = append(req.Header, lab.KV{K: "X-Forwarded-For", V: ec.Client})
 	}
 	if ec.Req.present() {
-		req.Header = append(req.Header, lab.KV{K: ec.Req.Name, V: ec.Req.v})
+		for _, l := range ec.Req.lines() {
+			req.Header = append(req.Header, lab.KV{K: ec.Req.Name, V: l})
+		}
 	}
 	if ec.Trace.present() {
-		req.Header = append(req.Header, lab.KV{K: ec.Trace.Name, V: ec.Trace.v})
+		for _, l := range ec.Trace.lines() {
+			req.Header = append(req.Header, lab.KV{K: ec.Trace.Name, V: l})
+		}
 	}
 	if ec.Path == "413" {
 		req.Framing = "cl"
@@ -255,8 +259,8 @@ func oneID(feature string, enabled, transformer bool, name string, v idVal, ob o
 			switch {
 			case !v.present() && len(bs) != 0:
 				return fmt.Sprintf("%s disabled and the client sent no %s, but the backend received %s: %s", feature, name, name, quoteAll(bs)), ""
-			case v.present() && (len(bs) != 1 || bs[0] != v.v):
-				return fmt.Sprintf("%s disabled: client sent %s: %s, backend received %s", feature, name, quote(v.v), quoteAll(bs)), ""
+			case v.present() && !sameLines(bs, v.lines()):
+				return fmt.Sprintf("%s disabled: client sent %s: %s, backend received %s", feature, name, quoteAll(v.lines()), quoteAll(bs)), ""
 			}
 		}
 		return "", ""
@@ -272,6 +276,29 @@ func oneID(feature string, enabled, transformer bool, name string, v idVal, ob o
 	id := got[0]
 	if id == "" {
 		return fmt.Sprintf("%s enabled: the response (status %d) carries an empty %s", feature, ob.out.Status, name), ""
+	}
+	if len(v.More) > 0 && !transformer {
+		// The client sent the identifier as several field lines. "Passed to the backend and echoed unchanged; the
+		// value the backend sees equals the value the client gets" then leaves the implementation a choice of which
+		// line is THE identifier (or the lines combined with ", ", which HTTP defines as equivalent), but the choice
+		// must be the same on both sides: the value reported to the client is what a backend reading the header
+		// gets - the first (or only) field line it receives, or the combination when all lines were passed on.
+		all := v.lines()
+		joined := strings.Join(all, ", ")
+		okID := id == joined
+		for _, l := range all {
+			okID = okID || id == l
+		}
+		if !okID {
+			return fmt.Sprintf("%s: client supplied %s as field lines %s, the response (status %d, path %s) echoes %s, which is none of them", feature, name, quoteAll(all), ob.out.Status, ob.path, quote(id)), ""
+		}
+		if ob.seen != nil {
+			bs := ob.seen.Header.Values(name)
+			if !(len(bs) >= 1 && bs[0] == id) && !(id == joined && sameLines(bs, all)) {
+				return fmt.Sprintf("%s: client supplied %s as field lines %s and was told %s, but the backend received %s - a backend reading the header sees %s", feature, name, quoteAll(all), quote(id), quoteAll(bs), quote(first(bs))), ""
+			}
+		}
+		return "", ""
 	}
 	if ob.seen != nil {
 		bs := ob.seen.Header.Values(name)
@@ -294,9 +321,19 @@ func oneID(feature string, enabled, transformer bool, name string, v idVal, ob o
 	return "", id
 }
 
+func first(vs []string) string {
+	if len(vs) == 0 {
+		return ""
+	}
+	return vs[0]
+}
+
 func sentText(v idVal) string {
 	if !v.present() {
 		return "no such header"
+	}
+	if len(v.More) > 0 {
+		return quoteAll(v.lines())
 	}
 	return quote(v.v)
 }
@@ -394,6 +431,9 @@ func labelsFor(lc labCfg, ec *exchangeCase, ob observed) (labels []string, nontr
 	supplied := ec.Req.supplied() || ec.Trace.supplied()
 	if supplied {
 		labels = append(labels, "client-supplied")
+	}
+	if len(ec.Req.More)+len(ec.Trace.More) > 0 {
+		labels = append(labels, "client-supplied-as-several-field-lines")
 	}
 	if ec.Reuse {
 		labels = append(labels, "keep-alive")
